@@ -54,6 +54,11 @@ func (h *EventHandler) OnAdd(obj any, _ bool) {
 
 // OnDelete handles the endpoints delete events.
 func (h *EventHandler) OnDelete(obj any) {
+	// the delete was missed and noticed by a re-list, the last known object is in the tombstone
+	if tombstone, ok := obj.(cache.DeletedFinalStateUnknown); ok {
+		obj = tombstone.Obj
+	}
+
 	endpoints, ok := obj.(*v1.Endpoints)
 	if !ok {
 		logx.Errorf("%v is not an object with type *v1.Endpoints", obj)
